@@ -131,8 +131,9 @@ CurV == Len(CurPart.vols)
 NewPartition ==
   /\ ~done /\ CurP < goal.parts
   /\ CurP > 0 => (Len(CurPart.vols) = goal.vols /\ Len(CurPart.vols[CurV].files) = goal.files)
-  /\ \E sys \in {0, RESW} :
-       img' = [img EXCEPT !.parts = Append(@, [vols |-> <<>>, sys |-> sys, spacers |-> {}])]
+  /\ \E sys \in {0, RESW}, volgap \in (IF Mode = "exhaustive" THEN {FALSE} ELSE BOOLEAN) :
+       \* volgap: inactive volume entries between the active ones (volume k sits in entry 2k+1 of the 100-entry table)
+       img' = [img EXCEPT !.parts = Append(@, [vols |-> <<>>, sys |-> sys, spacers |-> {}, volgap |-> volgap])]
   /\ UNCHANGED <<done, goal>>
 
 VolNames == <<"VOL 1", "V2", "DRUMS 03">>
@@ -172,6 +173,14 @@ NewFile ==
              AddFile(FileNames[Len(CurPart.vols[CurV].files) + 1], ftype, ch, cnt, m[1], m[2], rate, "")
   /\ UNCHANGED <<done, goal>>
 
+\* a file that is not a sample: a program (0x70 / 0xF0; the writer stores a valid program) or a type the tool has no
+\* parser for (0x64 drum settings, random content).  Such files are listed but never exported.
+NewOther ==
+  /\ ~done /\ Mode = "classes" /\ CurP > 0 /\ CurV > 0 /\ Len(CurPart.vols[CurV].files) < goal.files
+  /\ \E ftype \in {112, 240, 100} : \E ch \in ChainCandidates(CurPart, 1) :
+       AddFile(IF ftype = 100 THEN "DRM 1" ELSE "PROG " \o FileNames[Len(CurPart.vols[CurV].files) + 1], ftype, ch, 300, 0, 0, 0, "")
+  /\ UNCHANGED <<done, goal>>
+
 \* a left/right pair: two files of equal length named <stem>-L / <stem>-R, in either directory order
 NewPair ==
   /\ ~done /\ Mode = "classes" /\ CurP > 0 /\ CurV > 0 /\ Len(CurPart.vols[CurV].files) + 2 <= goal.files
@@ -191,7 +200,7 @@ Finish ==
   /\ ~done /\ CurP = goal.parts /\ CurV = goal.vols /\ Len(CurPart.vols[CurV].files) = goal.files
   /\ done' = TRUE /\ UNCHANGED <<img, goal>>
 
-Next == NewPartition \/ NewVolume \/ NewFile \/ NewPair \/ Finish
+Next == NewPartition \/ NewVolume \/ NewFile \/ NewOther \/ NewPair \/ Finish
 Spec == Init /\ [][Next]_vars
 
 \* ---- design properties ----------------------------------------------------------------------
@@ -288,7 +297,7 @@ Emit ==
   (EmitCases /\ done) =>
      PrintT(<<"CASE", ToJson([S |-> S, H |-> H, T |-> T, nsect |-> NSect, first |-> FirstData,
                               parts |-> [p \in 1..Len(img.parts) |->
-                                           [vols |-> img.parts[p].vols, sys |-> img.parts[p].sys,
+                                           [vols |-> img.parts[p].vols, sys |-> img.parts[p].sys, volgap |-> img.parts[p].volgap,
                                             sat |-> {pr \in SatPairs(img.parts[p]) : pr[2] # 0}]],
                               expected |-> Expected(img), needs |-> Needs(img), cuts |-> Cuts(img) \cup InnerCuts(img), inner_cuts |-> InnerCuts(img)])>>)
 =============================================================================
